@@ -21,6 +21,16 @@ func register(p *mon.Prop) {
 	inner := p.Flavours
 	p.Flavours = func(tier string) []string {
 		fl := append([]string(nil), inner(tier)...)
+		// every property also runs with the module's own build tag `debug` (what its Makefile tests with): the contract
+		// checks of openacid/must then execute inside the library functions (round 13 seeded debug-only assertions that
+		// reject valid inputs in bitmap, bmtree and TailBitmap)
+		hasDebug := false
+		for _, f := range fl {
+			hasDebug = hasDebug || f == "debug"
+		}
+		if !hasDebug {
+			fl = append(fl, "debug")
+		}
 		for i := 1; i <= mon.ColdVariants(tier); i++ {
 			fl = append(fl, "release#coldconc"+strconv.Itoa(i))
 		}
@@ -48,4 +58,11 @@ func releaseAnd386(tier string) []string {
 		return []string{"release", "go126", "386"}
 	}
 	return []string{"release", "386"}
+}
+
+// releaseAnd386Debug: the bmtree properties additionally run with the module's own build tag `debug`, under which the
+// contract checks of openacid/must execute inside the functions (a message argument of an assertion that is evaluated
+// on every call and overruns a fixed array at height 30 was seeded in round 13).
+func releaseAnd386Debug(tier string) []string {
+	return append(releaseAnd386(tier), "debug")
 }
